@@ -1,30 +1,58 @@
 """Maps property ids to pipelines."""
-from common import ToolError
+import fcntl
+import os
+
+from common import BUILD, ToolError, log
+
+_held = []
+
+
+def _exclusive(group):
+    """Checks of one pipeline share scratch directories under build/cache (generated parsers, compiled
+    runners, batch files): two of them running at the same time from the same /verif would overwrite
+    each other's files.  They are serialised with an advisory lock held until the process exits."""
+    os.makedirs(BUILD, exist_ok=True)
+    fh = open(os.path.join(BUILD, "lock-" + group), "w")
+    try:
+        fcntl.flock(fh, fcntl.LOCK_EX | fcntl.LOCK_NB)
+    except OSError:
+        log("another check of pipeline %s is running from this directory; waiting for it" % group)
+        fcntl.flock(fh, fcntl.LOCK_EX)
+    _held.append(fh)
+
 
 
 def run(prop, tier):
     if prop in ("C09", "C10", "C14"):
+        _exclusive("p1")
         import p1
         return p1.judge(prop, tier)
     if prop in ("C01", "C02", "C03", "C04", "C05", "C06", "C07", "C08", "C16"):
+        _exclusive("p2")
         import p2
         return p2.judge(prop, tier)
     if prop in ("C17", "C18"):
+        _exclusive("p5")
         import p5
         return p5.judge(prop, tier)
     if prop == "C19":
+        _exclusive("p6")
         import p6
         return p6.judge(prop, tier)
     if prop == "C20":
+        _exclusive("p7")
         import p7
         return p7.judge(prop, tier)
     if prop in ("C12", "C13"):
+        _exclusive("p4")
         import p4
         return p4.judge(prop, tier)
     if prop == "C11":
+        _exclusive("p3")
         import p3
         return p3.judge(prop, tier)
     if prop == "C15":
+        _exclusive("p8")
         import p8
         return p8.judge(prop, tier)
     raise ToolError("no check for %s" % prop)
@@ -32,27 +60,35 @@ def run(prop, tier):
 
 def replay(prop, path):
     if prop in ("C09", "C10", "C14"):
+        _exclusive("p1")
         import p1
         return p1.replay(prop, path)
     if prop in ("C01", "C02", "C03", "C04", "C05", "C06", "C07", "C08", "C16"):
+        _exclusive("p2")
         import p2
         return p2.replay(prop, path)
     if prop in ("C17", "C18"):
+        _exclusive("p5")
         import p5
         return p5.replay(prop, path)
     if prop == "C19":
+        _exclusive("p6")
         import p6
         return p6.replay(prop, path)
     if prop == "C20":
+        _exclusive("p7")
         import p7
         return p7.replay(prop, path)
     if prop in ("C12", "C13"):
+        _exclusive("p4")
         import p4
         return p4.replay(prop, path)
     if prop == "C11":
+        _exclusive("p3")
         import p3
         return p3.replay(prop, path)
     if prop == "C15":
+        _exclusive("p8")
         import p8
         return p8.replay(prop, path)
     raise ToolError("no replay for %s" % prop)
